@@ -7,6 +7,8 @@
 (* A, B, C are online on their own control connections and own a fixed world:                 *)
 (*     mapping m1 (listen A, target B)    connection code k1 (owner B, not activated)          *)
 (*     HTTP domain d1 (owner B)                                                               *)
+(*     mapping m0 (listen client 0 = listened on by the server itself, target B)               *)
+(*     mapping mz (listen A, target client 0)                                                  *)
 (* so that the actor is, per object, unauthenticated / owner / other party / stranger.        *)
 (*                                                                                            *)
 (* Cmd(ty, pt, cl, bf, obj) models SessionManager.handleCommandPacket: the special cases          *)
@@ -23,6 +25,7 @@
 (*   "dnsAuth"      DNS resolve / query forwarding refuses unauthenticated connections         *)
 (*   "domainAuth"   HTTP domain create / list / delete refuse unauthenticated connections      *)
 (*   "notifyAuth"   SendNotifyToClientHandler refuses unauthenticated connections              *)
+(*   "socksAuth"    the SOCKS5 tunnel request handler refuses unauthenticated connections       *)
 (*                                                                                            *)
 (* Every effect (object returned, added, deleted, modified, packet delivered to a client) is   *)
 (* logged with the identity the code acted for (id) and the authentication of the connection.  *)
@@ -44,11 +47,11 @@ Clients == {"A", "B", "C"}
 None    == "none"
 NoId    == "nobody"          \* the handler consulted no identity
 Victim(a) == IF a = "B" THEN "A" ELSE "B"
-AllFixes == {"trafficParty", "dnsAuth", "domainAuth", "notifyAuth"}
+AllFixes == {"trafficParty", "dnsAuth", "domainAuth", "notifyAuth", "socksAuth"}
 
 VARIABLES cn,     \* c1: [auth, typ, reg, pend (challenge pending for whom), failed, alive]
           ctl,    \* client -> "v" (its own control connection) | "c1": who holds the client-id index entry
-          st,     \* store: [wv, m1, m2, k1by, gen, d1, d2, tr]
+          st,     \* store: [wv, m1, m0, mz, m2, k1by, gen, d1, d2, tr]
           ncmd,
           log,    \* ghost: effects [ty, auth, e] of the latest command (the invariants are evaluated after every command)
           outs,   \* ghost: [ty, auth, out] of the latest command
@@ -61,9 +64,11 @@ view == <<cn, ctl, st, ncmd, log, outs>>
 \* ------------------------------------------------------------------------------------------
 \* the store
 Present(s)    == (IF s.m1 THEN {"m1"} ELSE {}) \cup (IF s.m2 # None THEN {"m2"} ELSE {})
-Listen(s, m)  == IF m = "m1" THEN "A" ELSE s.m2
-Target(s, m)  == "B"
-Parties(s, m) == {Listen(s, m), Target(s, m)}
+                 \cup (IF s.m0 THEN {"m0"} ELSE {}) \cup (IF s.mz THEN {"mz"} ELSE {})
+\* ListenClientID / TargetClientID as stored; "none" = client id 0 - the same value an unauthenticated connection has
+Listen(s, m)  == CASE m = "m1" -> "A" [] m = "mz" -> "A" [] m = "m0" -> None [] OTHER -> s.m2
+Target(s, m)  == IF m = "mz" THEN None ELSE "B"
+Parties(s, m) == {Listen(s, m), Target(s, m)} \ {None}
 MapsOf(s, a)  == {m \in Present(s) : a \in Parties(s, m)}
 CodesOf(s, a) == (IF a = "B" THEN {"k1"} ELSE {}) \cup (IF a \in s.gen THEN {"g" \o a} ELSE {})
 Doms(s)       == (IF s.d1 THEN {"d1"} ELSE {}) \cup (IF s.d2 # None THEN {"d2"} ELSE {})
@@ -103,7 +108,8 @@ Outcome(s, a, rg, ty0, obj) ==
          IF a = None \/ obj \notin Present(s) THEN Fail(s)
          ELSE IF a \notin Parties(s, obj) THEN Fail(s)
          ELSE R("ok", {E("del", obj, Parties(s, obj), a, None)},
-                IF obj = "m1" THEN [s EXCEPT !.m1 = FALSE] ELSE [s EXCEPT !.m2 = None])
+                CASE obj = "m1" -> [s EXCEPT !.m1 = FALSE] [] obj = "m0" -> [s EXCEPT !.m0 = FALSE]
+                  [] obj = "mz" -> [s EXCEPT !.mz = FALSE] [] OTHER -> [s EXCEPT !.m2 = None])
     [] ty \in {"HTTPDomainGetBaseDomains", "HTTPDomainCheckSubdomain", "HTTPDomainGenSubdomain", "RpcInvoke"} -> R("ok", {}, s)
     [] ty = "HTTPDomainCreate" ->
          \* unauthenticated: refused by the patched handler; before the patch by HTTPDomainMapping.Validate (client id must be positive)
@@ -117,7 +123,10 @@ Outcome(s, a, rg, ty0, obj) ==
          ELSE IF DomOwner(s, obj) # a THEN Fail(s)
          ELSE R("ok", {E("del", obj, {a}, a, None)}, IF obj = "d1" THEN [s EXCEPT !.d1 = FALSE] ELSE [s EXCEPT !.d2 = None])
     [] ty = "SOCKS5TunnelRequestCmd" ->
-         IF obj \notin Present(s) \/ a # Listen(s, obj) THEN Fail(s)
+         \* "source client = ListenClientID" is the whole check: for a server-listened mapping (listen id 0) it is met by
+         \* exactly the connections that never authenticated - unless "socksAuth" refuses those first
+         IF obj \notin Present(s) \/ a # Listen(s, obj) \/ (a = None /\ Fixed("socksAuth")) THEN Fail(s)
+         ELSE IF Target(s, obj) = None THEN Fail(s)                                          \* client 0 is never online
          ELSE R("none", {E("deliv", obj, {Listen(s, obj)}, a, Target(s, obj))}, s)
     [] ty = "TunnelTrafficReport" ->
          IF Fixed("trafficParty")
@@ -132,7 +141,7 @@ Outcome(s, a, rg, ty0, obj) ==
          THEN (IF Fixed("dnsAuth") /\ a = None THEN Fail(s)
                ELSE R(IF rg THEN "ok" ELSE "fail",                                        \* the answer is relayed only to a registered connection
                       {E("deliv", "dns", {Victim(a)}, IF Fixed("dnsAuth") THEN a ELSE NoId, Victim(a))}, s))  \* deviation: target taken from the packet, caller never looked at
-         ELSE (IF a = None \/ {m \in MapsOf(s, a) : ~(m = "m1" /\ s.wv \in {"inactive", "revoked"})} = {} THEN Fail(s)   \* default target: an ACTIVE socks mapping (revoking makes it inactive)
+         ELSE (IF a = None \/ {m \in MapsOf(s, a) : m = "m1" /\ s.wv \notin {"inactive", "revoked"}} = {} THEN Fail(s)   \* default target: an ACTIVE socks mapping (revoking makes it inactive)
                ELSE R("ok", {E("deliv", "dns", {"B"}, a, "B")}, s))                       \* default target: target client of the caller's own mapping
     [] ty = "SendNotifyToClient" ->
          IF a = None /\ Fixed("notifyAuth") THEN Fail(s)
@@ -144,6 +153,7 @@ Deviating(ty0) == LET ty == Base(ty0) IN
   \/ (ty \in {"DNSResolve", "DNSQuery"} /\ ~Fixed("dnsAuth"))
   \/ (ty \in {"HTTPDomainList", "HTTPDomainDelete"} /\ ~Fixed("domainAuth"))
   \/ (ty = "SendNotifyToClient" /\ ~Fixed("notifyAuth"))
+  \/ (ty = "SOCKS5TunnelRequestCmd" /\ ~Fixed("socksAuth"))
 
 \* ------------------------------------------------------------------------------------------
 \* what the environment may send
@@ -165,7 +175,8 @@ ObjsFor(s, t0) == LET t == Base(t0) IN
 \*   body     = client-id fields inside the JSON body (target_client_id of the tunnel request, and client_id /
 \*              listen_client_id / sender_client_id / owner_client_id / user_id on every request)
 \*   "own" = the caller's id, "victim" = another party, "third" = a client that is neither
-ClaimPairs(s, t) == IF Emit /\ Policy[t].need /\ s.wv = "base"
+\* (not while a challenge is pending on c1: those states differ from their neighbours only in the handshake)
+ClaimPairs(s, t) == IF Emit /\ Policy[t].need /\ s.wv = "base" /\ cn.pend = None
                     THEN {<<"absent", "absent">>, <<"own", "absent">>, <<"victim", "absent">>,
                           <<"absent", "own">>, <<"absent", "third">>, <<"absent", "victim">>, <<"victim", "victim">>}
                     ELSE {<<"absent", "absent">>}
@@ -218,7 +229,7 @@ PolicyOut == IF Emit THEN PrintT("BEH " \o ToJson([policy |-> [t \in Types |-> P
 Init ==
   /\ cn = [auth |-> None, typ |-> None, reg |-> FALSE, pend |-> None, failed |-> FALSE, alive |-> TRUE]
   /\ ctl = [X \in Clients |-> "v"]
-  /\ \E w \in WVs : st = [wv |-> w, m1 |-> TRUE, m2 |-> None, k1by |-> None, gen |-> {}, d1 |-> TRUE, d2 |-> None, tr |-> [m \in {"m1", "m2"} |-> 0]]
+  /\ \E w \in WVs : st = [wv |-> w, m1 |-> TRUE, m0 |-> TRUE, mz |-> TRUE, m2 |-> None, k1by |-> None, gen |-> {}, d1 |-> TRUE, d2 |-> None, tr |-> [m \in {"m1", "m2", "m0", "mz"} |-> 0]]
   /\ ncmd = 0 /\ log = {} /\ outs = {} /\ hist = <<>>
   /\ PolicyOut
 
